@@ -387,7 +387,9 @@ def task_bounded(I, seed, k):
         else:
             import decimal
             enc = rnd.choice([None, 1, 2, 3, 4, 5, 6, 7, 8, 'utf-8', 'ISO-8859-15'])
-            amount = rnd.choice([0.01, 1, '1.1', 12.3, decimal.Decimal('999999999.99'), 100, '0.50', 5.0, 1234567.89, 0.29, 4.35])
+            amount = rnd.choice([0.01, 1, '1.1', 12.3, decimal.Decimal('999999999.99'), 100, '0.50', 5.0, 1234567.89, 0.29, 4.35,
+                                 # range limits from both sides (out of range values have to be refused, not rounded into the range)
+                                 0.0051, '0.0099', 0.009, 0, -5, 1000000000, '999999999.991', '999999999.995', decimal.Decimal('0.0051'), '0.010'])
             kw = dict(name=rnd.choice(['Wikimedia', 'Fr. Ü', 'x' * 70]), iban='DE33100205000001194700', amount=amount, encoding=enc)
             if rnd.random() < 0.5:
                 kw['text'] = rnd.choice(['Spende', 'a' * 140, 'Ünïcode €'])
